@@ -484,7 +484,10 @@ for _tier in ("quick", "thorough"):
 
 # Counters that depend on how the operating system schedules threads (how many calls actually overlapped) must not turn
 # a loaded machine into an INCONCLUSIVE verdict: keep their minima far below anything seen, in every tier.
-_SCHEDULING = {"overlapping_call_pairs": 100, "max_distinct_overlapping_kind_pairs": 2}
+# The same goes for counters that grow with the number of shard processes (VERIF_JOBS): once per process self-tests,
+# per-process baselines.
+_SCHEDULING = {"overlapping_call_pairs": 100, "max_distinct_overlapping_kind_pairs": 2,
+               "scanner_selftests": 3, "virgin_process_probes": 2, "sanitizer_processes": 2, "instrument_selftests": 1}
 for _c in CHECKS.values():
     for _t in ("quick", "thorough"):
         _r = _c.get("require", {}).get(_t, {})
